@@ -393,6 +393,16 @@ def corpus_lines(g):
     ]
 
 
+def quick_scan(lines, obs, g):
+    """Does any history of this process already violate the property?"""
+    for line, o in zip(lines, obs):
+        if line.startswith('c20.seq') and oracle_seq(line, o, g)[0]:
+            return True
+        if line.startswith('c20.crun') and oracle_crun(line, o)[0]:
+            return True
+    return False
+
+
 def classify_crash(out, tag, lines, obs, log):
     for i, o in enumerate(obs):
         if o is None:
@@ -427,6 +437,8 @@ def run(tier):
             crashed = True
         all_lines += lines
         all_obs += obs
+        if crashed or quick_scan(lines, obs, g):
+            break            # a failing input is on the table; the remaining processes would only repeat it
     t_impl = time.time() - t_impl
 
     # 1. the property on the implementation
@@ -475,6 +487,7 @@ def run(tier):
                 bad.append((line, why, obs))
             elif h is not None:
                 crun.append((line, h, short))
+    bad.sort(key=lambda b: len(b[0]))          # smallest failing history first
     for line, why, obs in bad[:3]:
         short_line = line if len(line) < 4000 else line[:4000] + '…'
         out.violation(f'{why}  [{short_line[:160]}]', {'kind': 'impl-oracle', 'ops': [line], 'observed': (obs or '')[:4000], 'why': why,
@@ -484,7 +497,7 @@ def run(tier):
     seq_idx = [i for i, l in enumerate(all_lines) if l.startswith('c20.seq') and all_obs[i] is not None and not all_obs[i].startswith('env-mismatch')]
     mlines = [all_lines[i].replace('pristine:', '') for i in seq_idx]
     vlines, vsrc = [], []
-    for line, h, short in crun:
+    for line, h, short in ([] if bad else crun):     # trace validation is pointless once the property itself failed
         if short and h['stamps']:
             vlines.append(admits_line(h))
         else:
